@@ -297,7 +297,7 @@ func (e *c12Exec) shape() {
 		return
 	}
 	fail := func(class, what, obs, req string) {
-		e.c.Fail(vf.Violation{Kind: "property", Class: class + "-" + op.pkg, What: what, Case: cs, Observed: obs, Required: req})
+		e.c.Fail(vf.Violation{Kind: "property", Class: class + "-" + op.pkg, What: e.step + what, Case: e.rep(), Observed: obs, Required: req})
 	}
 	// reference behaviour: fresh exact-size slices
 	fresh, _ := c12Place("exact", 0, 0, op.vals)
